@@ -47,7 +47,9 @@ type BuiltBlock struct {
 	PV      int64    `json:"pv"`
 	State   string   `json:"state"`
 	Raw     string   `json:"raw"`
-	Txs     []string `json:"txs"` // tx names
+	Txs     []string `json:"txs"`   // tx names
+	BalA    string   `json:"bal_a"` // balances in the block's post-state (read when the block was built)
+	BalB    string   `json:"bal_b"`
 }
 
 type BuiltTx struct {
@@ -132,8 +134,10 @@ func childBuild(specFile, outFile string) {
 			panic(err)
 		}
 		headers[bs.Name] = hd
+		post := node.StateAt(root)
 		bb := BuiltBlock{Name: bs.Name, Parent: bs.Parent, Hash: hd.Hash.Hex(), PreHash: hd.PreHash.Hex(), Height: h, TotalQN: hd.TotalQN,
-			PV: bs.PV, State: root.Hex(), Raw: hex.EncodeToString(raw), Txs: bs.Txs}
+			PV: bs.PV, State: root.Hex(), Raw: hex.EncodeToString(raw), Txs: bs.Txs,
+			BalA: post.GetBalance(common.HexToAddress(node.AcctA)).String(), BalB: post.GetBalance(common.HexToAddress(node.AcctB)).String()}
 		out.Blocks = append(out.Blocks, bb)
 	}
 	mustWrite(outFile, out)
@@ -167,6 +171,8 @@ type Obs struct {
 	HasHash    map[string]bool   `json:"has_hash"`    // block name -> hash index contains it
 	Tx         map[string]TxObs  `json:"tx"`
 	MemHead    string            `json:"mem_head"` // TopBlock() (in-memory) vs stored latest
+	BalA       string            `json:"bal_a"`    // read from the head's state ("ERR: ..." if unreadable)
+	BalB       string            `json:"bal_b"`
 }
 
 type RunOut struct {
@@ -190,8 +196,18 @@ func observe(tree *BuiltTree, step int) Obs {
 		return o
 	}
 	o.Head, o.HeadHeight, o.HeadQN = top.Hash.Hex(), top.Height, top.TotalQN
-	if _, err := middleware.AccountDBManagerInstance.GetAccountDBByHash(top.StateTree); err == nil {
+	if st, err := middleware.AccountDBManagerInstance.GetAccountDBByHash(top.StateTree); err == nil {
 		o.StateOpens = true
+		// really read through the state (a root node alone proves little)
+		func() {
+			defer func() {
+				if r := recover(); r != nil {
+					o.BalA = fmt.Sprint("ERR: ", r)
+				}
+			}()
+			o.BalA = st.GetBalance(common.HexToAddress(node.AcctA)).String()
+			o.BalB = st.GetBalance(common.HexToAddress(node.AcctB)).String()
+		}()
 	}
 	maxH := uint64(0)
 	for _, b := range tree.Blocks {
